@@ -21,7 +21,7 @@
   terminator, exactly `L + 1` bytes are written (everything behind them is
   unchanged, and a buffer of exactly `L + 1` bytes suffices).
 -/
-import IgrisModel.C07.Lemmas3
+import IgrisModel.C07.Lemmas3b
 namespace Igris.C07
 open Igris.Proto
 
@@ -1243,5 +1243,86 @@ theorem ato_inverse_libc (v32 : BitVec 32) (v64 : BitVec 64) (base : BitVec 8) (
   · have h := ultoa_canonical v64 (base.zeroExtend 16) hb' m (by rw [e]; omega)
     rw [e] at h
     exact ⟨_, h, by rw [atou64_canon base hb.1 hb.2]; simp⟩
+
+/-! ## M. extension round 3b: the arguments outside the contracts, and the width wrappers
+
+  The "Still open" items of round 3 that can be stated about the model: what `debug_printhex_uint4` /
+  `debug_printbin_uint4` do with an argument above 15, what `debug_printhex_n` does with a negative `n`
+  (the parameter is an `int`), and the letter case of the six width wrappers. -/
+
+/-- debug_printhex_uint4 on EVERY `uint8_t` argument: always exactly one character, the code of the argument
+    plus `'0'` (below 10) or `'A' - 10` (from 10 on) in `uint8_t`; for every argument below 36 that is the
+    upper-case digit of the argument (16..35 continue into the base-36 alphabet); it is the hex digit of the
+    low nibble IF AND ONLY IF the argument is below 16 — the routine does not mask, `print_nibble`'s hypothesis
+    is exact.  debug_printbin_uint4 tests four bits: for every argument the four binary digits of the argument
+    mod 16 (the high nibble is ignored). -/
+theorem print_nibble_total (b : Byte) :
+    (∃ c, printhexU4 b = [c] ∧ c.toNat = (b.toNat + (if b.toNat < 10 then 48 else 55)) % 256) ∧
+    (b.toNat < 36 → printhexU4 b = [digitChar true b.toNat]) ∧
+    (printhexU4 b = (fixedDigits 16 1 (b.toNat % 16)).map (digitChar true) ↔ b.toNat < 16) ∧
+    printbinU4 b = (fixedDigits 2 4 (b.toNat % 16)).map (digitChar true) :=
+  ⟨(printhexU4_total b).1, (printhexU4_total b).2.1, (printhexU4_total b).2.2, printbinU4_total b⟩
+
+example : printhexU4 0x1F#8 = [0x56#8] ∧ printbinU4 0xF5#8 = [0x30#8, 0x31#8, 0x30#8, 0x31#8] := by decide
+
+/-- debug_printhex_n with `int n` at its C width, on every memory, every `arg` and EVERY 32-bit `n`:
+    defined exactly when `n ≥ 0` and the `n` bytes lie inside the object (nothing is read for `n = 0`), and then
+    the two upper-case hex digits of each byte, highest address first.  Totality and the exact excluded
+    region in one equation. -/
+theorem printhexN_int_spec (mem : List Byte) (arg : Nat) (n : BitVec 32) :
+    printhexNI mem arg n
+      = if 0 ≤ n.toInt ∧ (n.toNat = 0 ∨ arg + n.toNat ≤ mem.length) then
+          some (((mem.drop arg).take n.toNat).reverse.flatMap fun b => (fixedDigits 16 2 b.toNat).map (digitChar true))
+        else none := by
+  by_cases hn : 0 ≤ n.toInt
+  · have e : n.toInt = (n.toNat : Int) := by
+      have := @BitVec.toInt_eq_toNat_cond 32 n
+      rw [this] at hn ⊢
+      split at hn <;> simp_all <;> omega
+    have hlt : n.toNat < 4294967297 := by have := n.isLt; omega
+    have h3 := (writehex_reversed_spec mem arg 0#16 n.toNat).2.2
+    unfold printhexNI
+    rw [e]
+    have e2 : ((arg : Int) + (n.toNat : Int)).toNat = arg + n.toNat := by omega
+    have e3 : ¬ ((arg : Int) + (n.toNat : Int) < 0) := by omega
+    rw [if_neg e3, e2, hexNLoopI_nonneg _ _ _ _ _ hlt]
+    have h4 : printhexN mem arg n.toNat = (hexNLoop mem.toArray n.toNat (arg + n.toNat) []).map List.reverse := rfl
+    rw [← h4, h3]
+    have e5 : (0 : Int) ≤ (n.toNat : Int) := by omega
+    simp only [e5, true_and]
+  · have hneg : n.toInt < 0 := by omega
+    unfold printhexNI
+    split
+    · simp [hn]
+    · rw [hexNLoopI_neg _ _ _ _ _ hneg]
+      simp [hn]
+
+/-- ... in particular a negative `n` is undefined whatever the memory looks like: the pointer starts in front
+    of `arg` and the loop can only end in a load outside the object or in `n--` on INT_MIN.  (No caller passes
+    one: every call site passes a `sizeof`.) -/
+theorem printhexN_negative_undefined (mem : List Byte) (arg : Nat) (n : BitVec 32) (h : n.toInt < 0) :
+    printhexNI mem arg n = none := by
+  rw [printhexN_int_spec]
+  have : ¬ (0 ≤ n.toInt) := by omega
+  simp [this]
+
+example : (0xFFFFFFFF#32).toInt < 0 := by decide
+example : printhexNI [0x12#8, 0xAB#8] 0 2#32 = some [0x41#8, 0x42#8, 0x31#8, 0x32#8] := by decide
+
+/-- letter case of the six width wrappers (round 3 had it for the 64-bit routines only): igris_i32/i16/i8toa
+    write no upper-case letter, igris_u32/u16/u8toa no lower-case letter, for every value and base 2..36 -/
+theorem toa_wrappers_letter_case (n32 : BitVec 32) (n16 : BitVec 16) (n8 : BitVec 8) (base : BitVec 8)
+    (hb : 2 ≤ base.toNat ∧ base.toNat ≤ 36) (m : List Byte) (hm : 66 ≤ m.length) :
+    (∃ m' e, i32toa n32 m base = some (m', e) ∧ ∀ c ∈ m'.take e, ¬ (65 ≤ c.toNat ∧ c.toNat ≤ 90)) ∧
+    (∃ m' e, i16toa n16 m base = some (m', e) ∧ ∀ c ∈ m'.take e, ¬ (65 ≤ c.toNat ∧ c.toNat ≤ 90)) ∧
+    (∃ m' e, i8toa n8 m base = some (m', e) ∧ ∀ c ∈ m'.take e, ¬ (65 ≤ c.toNat ∧ c.toNat ≤ 90)) ∧
+    (∃ m' e, u32toa n32 m base = some (m', e) ∧ ∀ c ∈ m'.take e, ¬ (97 ≤ c.toNat ∧ c.toNat ≤ 122)) ∧
+    (∃ m' e, u16toa n16 m base = some (m', e) ∧ ∀ c ∈ m'.take e, ¬ (97 ≤ c.toNat ∧ c.toNat ≤ 122)) ∧
+    (∃ m' e, u8toa n8 m base = some (m', e) ∧ ∀ c ∈ m'.take e, ¬ (97 ≤ c.toNat ∧ c.toNat ≤ 122)) :=
+  ⟨i64toa_letters_lower _ base hb m hm, i64toa_letters_lower _ base hb m hm, i64toa_letters_lower _ base hb m hm,
+   u64toa_letters_upper _ base hb m hm, u64toa_letters_upper _ base hb m hm, u64toa_letters_upper _ base hb m hm⟩
+
+example : (i32toa 0xFFFFFF01#32 (List.replicate 66 0#8) 16#8).map (fun r => r.1.take r.2) = some [0x2D#8, 0x66#8, 0x66#8] ∧
+    (u32toa 0xFF#32 (List.replicate 66 0#8) 16#8).map (fun r => r.1.take r.2) = some [0x46#8, 0x46#8] := by decide
 
 end Igris.C07
